@@ -248,7 +248,7 @@ theorem envGet_sameValues (e : Nat) (name : String) (st : St) :
               else do
                 let tgt ← refValue re rn
                 let fr ← getFrame re
-                if (!(isConstant rn && fr.depth == 0) && !isFuncObj tgt) = true then do
+                if (!(isConstant rn && fr.depth == 0) && !(isFuncObj tgt && fr.depth == 0)) = true then do
                     modifyFrame e fun f => { f with getMiss := f.getMiss + 1 }
                     pure (some (Obj.ref re rn))
                   else pure (some (Obj.ref re rn))
